@@ -89,6 +89,19 @@ class Check(object):
                 self.deferred = []
             self.deferred.append('%s: %s' % (getattr(func, '__name__', 'rule'), e))
             return None
+        except (RecursionError, MemoryError):
+            raise
+        except Exception as e:
+            # an internal error of one rule (the code under analysis has a shape the rule's own bookkeeping did not foresee) is an
+            # analysis error of that rule, deferred like the others: never a verdict, and never hides what other rules established
+            import traceback
+            tb = traceback.extract_tb(e.__traceback__)
+            last = tb[-1] if tb else None
+            if not hasattr(self, 'deferred'):
+                self.deferred = []
+            self.deferred.append('%s: internal error %s: %s%s' % (getattr(func, '__name__', 'rule'), type(e).__name__, e,
+                                                                   ' (%s:%d)' % (os.path.basename(last.filename), last.lineno) if last else ''))
+            return None
 
     def finish(self, repo, replay_only=None):
         from sa.model import AnalysisError
